@@ -17,7 +17,7 @@ class VerifyThreshold(Obligation):
     def __init__(self,nk=2,ns=3,seed=0,rate=40,iter_kind='vec',known=()):
         self.known=set(known); self.nk=nk; self.ns=ns; self.seed=seed; self.rate=rate; self.iter_kind=iter_kind
         self.bounds={'pool_keys':nk,'max_signatures':ns,'threshold':'any u32 (32-bit vector)',
-                     'authorized_list':'each pool key absent / once / twice','labels':'pool ids + one unknown id',
+                     'authorized_list':'each pool key absent / once / twice','labels':'pool ids, one unknown id, and each pool id spelled in upper case (key ids are compared as strings)',
                      'hash_map_iteration':'every permutation','key_iterator':iter_kind}
         self.witnesses=['ok_thr1','ok_thr2','err_thr0','err_not_enough','ok_with_unauthorized_extra','ok_dup_label']
         self.seen=set()
@@ -37,11 +37,11 @@ class VerifyThreshold(Obligation):
         ns=run.pick(self.ns+1,'nsigs')
         sigs=[]; run.ghost['sigs']={}; labels=[]
         for j in range(ns):
-            lab=run.pick(nk+1,'label%d'%j)
+            lab=run.pick(2*nk+1,'label%d'%j)      # 0..nk-1: pool ids, nk: an unknown id, nk+1+i: the id of pool key i spelled in upper case (a different identifier)
             labels.append(lab)
             g={'made_by':z3.BitVec('made_by_%d'%j,8),'intact':z3.Bool('intact_%d'%j),'over':z3.Bool('over_%d'%j)}
             run.ghost['sigs'][j]=g
-            sigs.append(b.signature(pool_keyid(lab) if lab<nk else UNKNOWN_KEYID,value=bytes([j])))
+            sigs.append(b.signature(pool_keyid(lab) if lab<nk else (UNKNOWN_KEYID if lab==nk else pool_keyid(lab-nk-1).upper()),value=bytes([j])))
         for j in range(ns): run.add(z3.ULE(run.ghost['sigs'][j]['made_by'],nk))
         meta=b.wrap_link(b.link('step',materials=[(b.vpath('a'),b.target_description([1,2]))],command=['x']))
         mb=b.metablock(meta,sigs)
